@@ -25,8 +25,9 @@ func verifHarnessC11BothIO() {
 		verifAssume(vl <= maxLen)
 		k := verifBytes("k", 1)
 		v := verifBytes("v", vl)
-		pa, ea := fa.WriteLogRecord(&LogRecord{Key: k, Value: v, Type: verifU8("type")}, ha)
-		pb, eb := fb.WriteLogRecord(&LogRecord{Key: k, Value: v, Type: verifU8("type")}, hb)
+		typ := verifU8("type")
+		pa, ea := fa.WriteLogRecord(&LogRecord{Key: k, Value: v, Type: typ}, ha)
+		pb, eb := fb.WriteLogRecord(&LogRecord{Key: k, Value: v, Type: typ}, hb)
 		verifAssert(ea == nil && eb == nil, "C11.bothio-write-err")
 		verifAssert(*pa == *pb, "C11.bothio-position-differs")
 	}
